@@ -319,6 +319,12 @@ def extremum(eng, node, st, is_max):
         m = z3.Const(fresh_name("ext"), v.elem.z3sort())
         i = z3.Int(fresh_name("i"))
         w = z3.Int(fresh_name("w"))
+        view = getattr(v, "view", None)
+        if view is not None:
+            base, lo = view
+            st.assume(z3.ForAll([i], z3.Implies(z3.And(i >= lo, i < lo + v.len), (base[i] <= m) if is_max else (base[i] >= m)), patterns=[base[i]]))
+            st.assume(z3.And(w >= lo, w < lo + v.len, base[w] == m))
+            return m
         st.assume(z3.ForAll([i], z3.Implies(z3.And(i >= 0, i < v.len), (v.arr[i] <= m) if is_max else (v.arr[i] >= m))))
         st.assume(z3.And(w >= 0, w < v.len, v.arr[w] == m))
         return m
